@@ -235,5 +235,76 @@ Proof.
   reflexivity.
 Qed.
 
+
+(* the observable result of skinny128_set_tweaked_key(ks, key, size) on the byte image of a model tweakable schedule
+   (header, 56 schedule words, the stored tweak, anything behind) is the byte image of the model's result: the schedule of
+   set_key_inner under a zero TK1, and a zero stored tweak — for every accepted key size *)
+Theorem w_set_tweaked_key128_model : forall (key prevtw hdr : list byte) (sched : list (half byte)) r0 rest mrest,
+  16 <= length key <= 32 -> length hdr = 8 -> length sched = 56 -> length prevtw = 16 ->
+  let res := m128_set_tweaked_key {| tk_ks := {| ks_rounds := r0; ks_sched := sched |}; tk_tweak := prevtw |} (Some key)
+                                  (N.of_nat (length key)) in
+  fst res = 1%N /\
+  w_set_tweaked_key128 bool xorb false true (length key)
+    ((bitsb hdr ++ concat (map hbT8 sched) ++ bitsb prevtw ++ rest) :: bitsb key :: mrest)
+  = [ (rbytes (N.to_nat (ks_rounds byte (tk_ks byte (snd res)))) ++ skipn 4 (bitsb hdr))
+        ++ concat (map hbT8 (ks_sched byte (tk_ks byte (snd res)))) ++ bitsb (tk_tweak byte (snd res)) ++ rest;
+      bitsb key ].
+Proof.
+  intros key prevtw hdr sched r0 rest mrest Hk Hh Hs Hp. cbv zeta. unfold byte in *.
+  unfold m128_set_tweaked_key, set_tweaked_key.
+  assert (Hok : size_ok 16 (2 * 16) (N.of_nat (length key)) = true).
+  { unfold size_ok. apply andb_true_iff. split; apply N.leb_le; lia. }
+  rewrite Hok. cbn [fst snd tk_ks tk_tweak]. split; [reflexivity|].
+  rewrite Nat2N.id, (pad_to_id (length key) key eq_refl).
+  unfold w_set_tweaked_key128, w_set_tweaked_key, reg. cbv zeta. cbn [nth].
+  rewrite firstn_all2 by (apply Nat.eq_le_incl, map_length).
+  assert (Lpre : length (bitsb hdr ++ concat (map hbT8 sched)) = 456).
+  { rewrite app_length, map_length, sched_image_len128. unfold byte in *. lia. }
+  assert (Espl : splice bool (bitsb hdr ++ concat (map hbT8 sched) ++ bitsb prevtw ++ rest) 456 (repeat (zbyte bool false) 16)
+                 = bitsb hdr ++ concat (map hbT8 sched) ++ repeat (zbyte bool false) 16 ++ rest).
+  { rewrite (app_assoc (bitsb hdr)). rewrite <- Lpre.
+    rewrite (splice_mid _ (bitsb prevtw) rest) by (rewrite map_length, repeat_length; unfold byte in *; lia).
+    rewrite <- app_assoc. reflexivity. }
+  rewrite Espl. f_equal.
+  change (bitsb (zeros 16)) with (repeat (zbyte bool false) 16).
+  exact (key_sched128_tweaked_model key hdr sched (repeat (zbyte bool false) 16 ++ rest) r0 Hk Hh Hs).
+Qed.
+
+(* the observable result of skinny64_set_tweaked_key(ks, key, size) on the byte image of a model tweakable schedule
+   (header, 40 schedule words, the stored tweak, anything behind) is the byte image of the model's result: the schedule of
+   set_key_inner under a zero TK1, and a zero stored tweak — for every accepted key size *)
+Theorem w_set_tweaked_key64_model : forall (key prevtw hdr : list byte) (sched : list (half nib)) r0 rest mrest,
+  8 <= length key <= 16 -> length hdr = 4 -> length sched = 40 -> length prevtw = 8 ->
+  let res := m64_set_tweaked_key {| tk_ks := {| ks_rounds := r0; ks_sched := sched |}; tk_tweak := prevtw |} (Some key)
+                                  (N.of_nat (length key)) in
+  fst res = 1%N /\
+  w_set_tweaked_key64 bool xorb false true (length key)
+    ((bitsb hdr ++ concat (map hbT4 sched) ++ bitsb prevtw ++ rest) :: bitsb key :: mrest)
+  = [ (rbytes (N.to_nat (ks_rounds nib (tk_ks nib (snd res)))) ++ skipn 4 (bitsb hdr))
+        ++ concat (map hbT4 (ks_sched nib (tk_ks nib (snd res)))) ++ bitsb (tk_tweak nib (snd res)) ++ rest;
+      bitsb key ].
+Proof.
+  intros key prevtw hdr sched r0 rest mrest Hk Hh Hs Hp. cbv zeta. unfold byte in *.
+  unfold m64_set_tweaked_key, set_tweaked_key.
+  assert (Hok : size_ok 8 (2 * 8) (N.of_nat (length key)) = true).
+  { unfold size_ok. apply andb_true_iff. split; apply N.leb_le; lia. }
+  rewrite Hok. cbn [fst snd tk_ks tk_tweak]. split; [reflexivity|].
+  rewrite Nat2N.id, (pad_to_id (length key) key eq_refl).
+  unfold w_set_tweaked_key64, w_set_tweaked_key, reg. cbv zeta. cbn [nth].
+  rewrite firstn_all2 by (apply Nat.eq_le_incl, map_length).
+  assert (Lpre : length (bitsb hdr ++ concat (map hbT4 sched)) = 164).
+  { rewrite app_length, map_length, sched_image_len64. unfold byte in *. lia. }
+  assert (Espl : splice bool (bitsb hdr ++ concat (map hbT4 sched) ++ bitsb prevtw ++ rest) 164 (repeat (zbyte bool false) 8)
+                 = bitsb hdr ++ concat (map hbT4 sched) ++ repeat (zbyte bool false) 8 ++ rest).
+  { rewrite (app_assoc (bitsb hdr)). rewrite <- Lpre.
+    rewrite (splice_mid _ (bitsb prevtw) rest) by (rewrite map_length, repeat_length; unfold byte in *; lia).
+    rewrite <- app_assoc. reflexivity. }
+  rewrite Espl. f_equal.
+  change (bitsb (zeros 8)) with (repeat (zbyte bool false) 8).
+  exact (key_sched64_tweaked_model key hdr sched (repeat (zbyte bool false) 8 ++ rest) r0 Hk Hh Hs).
+Qed.
+
 Print Assumptions w_set_tweak128_model.
 Print Assumptions w_set_tweak64_model.
+Print Assumptions w_set_tweaked_key128_model.
+Print Assumptions w_set_tweaked_key64_model.
